@@ -47,8 +47,8 @@ def InScope (cfg : Cfg) (s : State α) : Op α → Prop
   | .set2d r c v => IdxAgree cfg s r c ∧ ValOK cfg v
   | .setPaired _ _ v => ValOK cfg v
   | .setMask mask v => MaskAgree cfg s mask ∧ ValOK cfg v
-  | .append _ _ => s.data ≠ []
-  | .appendFlat _ => cfg.appendFix = true ∧ s.data ≠ []
+  | .append vs _ => (cfg.appendEmptyFix = true ∨ s.data ≠ []) ∧ (cfg.appendFix = true ∨ vs ≠ [])
+  | .appendFlat _ => cfg.appendFix = true ∧ (cfg.appendEmptyFix = true ∨ s.data ≠ [])
   | .iop _ => s.data ≠ [] ∨ cfg.readsFix = true
   | .binop _ => s.data ≠ [] ∨ cfg.readsFix = true
   | .iop2 _ o => o.map List.length = s.lengths ∧ (s.data ≠ [] ∨ cfg.readsFix = true)
@@ -589,14 +589,29 @@ theorem rebuild_append {s : State α} (h : Inv s) (vs : Rows α) (obj : Bool) :
     intro hc
     exact h.2 (List.append_eq_nil_iff.mp hc).1
 
+theorem blankTest_false (cfg : Cfg) {s : State α} (h : Inv s)
+    (hd : cfg.appendEmptyFix = true ∨ s.data ≠ []) : blankTest cfg s = false := by
+  unfold blankTest
+  by_cases hf : cfg.appendEmptyFix = true
+  · simp only [hf, if_true]
+    exact isEmpty_false_of_ne h.lengths_ne
+  · rcases hd with hd | hd
+    · exact absurd hd hf
+    · simp only [hf, Bool.false_eq_true, if_false]
+      exact isEmpty_false_of_ne hd
+
 theorem stepOK_append (cfg : Cfg) {s : State α} (h : Inv s) (vs : Rows α) (form : Form)
-    (hd : s.data ≠ []) : StepOK cfg s (.append vs form) := by
+    (hd : cfg.appendEmptyFix = true ∨ s.data ≠ []) (hv : cfg.appendFix = true ∨ vs ≠ []) :
+    StepOK cfg s (.append vs form) := by
   unfold StepOK
   cases vs with
-  | nil => simp [step, specStep, absR]
+  | nil =>
+    rcases hv with hv | hv
+    · simp [step, blankTest_false cfg h hd, specStep, absR, hv]
+    · exact absurd rfl hv
   | cons v vs =>
     obtain ⟨s', h1, h2, h3⟩ := rebuild_append h (v :: vs) (s.objDtype || leakVal cfg form (v :: vs))
-    simp only [step, isEmpty_false_of_ne hd, Bool.false_eq_true, if_false, h1, specStep, absR, h2,
+    simp only [step, blankTest_false cfg h hd, Bool.false_eq_true, if_false, h1, specStep, absR, h2,
       Option.map_none, true_and]
     intro s'' o heq
     injection heq with heq
@@ -605,14 +620,15 @@ theorem stepOK_append (cfg : Cfg) {s : State α} (h : Inv s) (vs : Rows α) (for
     exact ⟨fun _ => h3, by simp⟩
 
 theorem stepOK_appendFlat (cfg : Cfg) {s : State α} (h : Inv s) (v : List α)
-    (hf : cfg.appendFix = true) (hd : s.data ≠ []) : StepOK cfg s (.appendFlat v) := by
+    (hf : cfg.appendFix = true) (hd : cfg.appendEmptyFix = true ∨ s.data ≠ []) :
+    StepOK cfg s (.appendFlat v) := by
   unfold StepOK
   cases v with
-  | nil => simp [step, specStep, isEmpty_false_of_ne hd, hf, absR]
+  | nil => simp [step, specStep, blankTest_false cfg h hd, hf, absR]
   | cons x xs =>
     obtain ⟨s', h1, h2, h3⟩ := rebuild_append h [x :: xs] s.objDtype
     simp only [List.flatten_cons, List.flatten_nil, List.append_nil, List.map_cons, List.map_nil] at h1
-    simp only [step, isEmpty_false_of_ne hd, Bool.false_eq_true, if_false, hf, if_true, h1, specStep,
+    simp only [step, blankTest_false cfg h hd, Bool.false_eq_true, if_false, hf, if_true, h1, specStep,
       absR, h2, Option.map_none, true_and]
     intro s'' o heq
     injection heq with heq
@@ -740,7 +756,7 @@ theorem stepOK_of_inScope (cfg : Cfg) {s : State α} (h : Inv s) (op : Op α) (h
   | set2d r c v => exact stepOK_set2d cfg h r c v hs.1 (hvalid r c) hs.2
   | setPaired r c v => exact stepOK_setPaired cfg h r c v hs
   | setMask mask v => exact stepOK_setMask cfg h mask v hs.1 hs.2
-  | append vs form => exact stepOK_append cfg h vs form hs
+  | append vs form => exact stepOK_append cfg h vs form hs.1 hs.2
   | appendFlat v => exact stepOK_appendFlat cfg h v hs.1 hs.2
   | iop f => exact stepOK_iop cfg h f hs
   | iop2 g o => exact stepOK_iop2 cfg h g o hs.1 hs.2
@@ -815,8 +831,8 @@ instance [DecidableEq α] (cfg : Cfg) (s : State α) : (op : Op α) → Decidabl
   | .set2d r c v => inferInstanceAs (Decidable (IdxAgree cfg s r c ∧ ValOK cfg v))
   | .setPaired _ _ v => inferInstanceAs (Decidable (ValOK cfg v))
   | .setMask mask v => inferInstanceAs (Decidable (MaskAgree cfg s mask ∧ ValOK cfg v))
-  | .append _ _ => inferInstanceAs (Decidable (s.data ≠ []))
-  | .appendFlat _ => inferInstanceAs (Decidable (cfg.appendFix = true ∧ s.data ≠ []))
+  | .append vs _ => inferInstanceAs (Decidable ((cfg.appendEmptyFix = true ∨ s.data ≠ []) ∧ (cfg.appendFix = true ∨ vs ≠ [])))
+  | .appendFlat _ => inferInstanceAs (Decidable (cfg.appendFix = true ∧ (cfg.appendEmptyFix = true ∨ s.data ≠ [])))
   | .iop _ => inferInstanceAs (Decidable (s.data ≠ [] ∨ cfg.readsFix = true))
   | .binop _ => inferInstanceAs (Decidable (s.data ≠ [] ∨ cfg.readsFix = true))
   | .iop2 _ o => inferInstanceAs (Decidable (o.map List.length = s.lengths ∧ (s.data ≠ [] ∨ cfg.readsFix = true)))
